@@ -11,6 +11,10 @@ C. the binary vs the Coq SPEC `spec_bounds` (documented grammar -> documented in
    spelling x fraction length; every subset and order of w/d/h/m/s, multi-digit counts, both signs,
    with/without '@'), and vs the rejection spec on near-miss / ambiguous / both-'@' / after>before
    inputs, under several --tz-offset values.  This is the failing-input search.
+   '@' bounds whose other bound carries a 3- or 6-digit fraction (both directions; D = 0 s ... mixed
+   units) are additionally checked through their effect on a probe log (lines 100 ms apart and 1 us
+   around both bounds): the printed lines must be exactly those with a <= t <= b of the spec, and the
+   equivalent absolute pair must select the same lines.
 """
 import itertools, json, os, re, sys
 from concurrent.futures import ThreadPoolExecutor
@@ -450,6 +454,72 @@ def probe_effect(scratch, k, which, arg, tzs, ns):
     return r["rc"], "".join(sorted(t.decode() for t in tags))
 
 
+AT_FRACS = [("ms", 1), ("ms", 500), ("ms", 678), ("us", 999999), ("us", 500000), ("us", 1)]
+AT_DURS = [[([0], "s")], [([1], "s")], [([2], "s")], [([1], "m")], [([9, 0], "s")],
+           [([1], "h"), ([2], "m"), ([3], "s")], [([1], "d"), ([1, 2], "h")], [([0], "m"), ([0, 0], "s")]]
+
+
+def gen_at_fraction(rng, reps):
+    """'-a X -b @+D' and '-b X -a @-D' where X carries a 3- or 6-digit fraction"""
+    out = []
+    for _ in range(reps):
+        for fr in AT_FRACS:
+            for items in AT_DURS:
+                for direction in ("b", "a"):
+                    l = rng.choice(LAYOUTS)
+                    y = rng.randrange(1972, 2098)
+                    m = rng.randrange(1, 13)
+                    d = rng.randrange(1, mlen(y, m) + 1)
+                    h, mi, sec = gen_time(rng)
+                    r = rng.random()
+                    if r < 0.4:
+                        z = None
+                    else:
+                        st = rng.choice(["ZPlain", "ZColon", "ZHour"])
+                        z = ("num", rng.choice(space_options(l)), st, rng.random() < 0.5, rng.randrange(0, 15),
+                             0 if st == "ZHour" else rng.choice([0, 30, 45]))
+                    x = ("dt", l, y, m, d, h, mi, sec, fr, z)
+                    if direction == "b":
+                        out.append((x, ("rel", True, False, items), "at-frac-b"))
+                    else:
+                        out.append((("rel", True, True, items), x, "at-frac-a"))
+    return out
+
+
+def abs_text(ns):
+    """an absolute documented form (dash-T layout, 6-digit fraction, +00:00) denoting [ns] (a multiple of 1 us)"""
+    secs, frac = divmod(ns, 10 ** 9)
+    days, sod = divmod(secs, 86400)
+    y, m, d = civil_from_days(days)
+    return "%04d-%02d-%02dT%02d:%02d:%02d.%06d+00:00" % (y, m, d, sod // 3600, sod // 60 % 60, sod % 60, frac // 1000)
+
+
+def pair_stamps(a_ns, b_ns):
+    st = set()
+    for x in (a_ns, b_ns):
+        for dlt in (-100000000, -1000, 0, 1000, 100000000):
+            st.add(x + dlt)
+    if 0 <= b_ns - a_ns <= 3 * 10 ** 9:
+        t = a_ns
+        while t <= b_ns:
+            st.add(t)
+            t += 100000000
+    else:
+        st.add((a_ns + b_ns) // 2 // 1000 * 1000)
+    return sorted(st)
+
+
+def probe_pair(scratch, name, a, b, tzs, stamps):
+    """runs -a a -b b on a log with the given stamps; returns (rc, sorted list of printed line indices)"""
+    p = os.path.join(scratch, "pair_%s.log" % name)
+    with open(p, "w") as f:
+        for k, t in enumerate(stamps):
+            f.write("%s tag_%03d\n" % (fmt_stamp(t), k))
+    r = run_case(a, b, tzs, p, want_stdout=True)
+    os.remove(p)
+    return r["rc"], sorted(int(x) for x in re.findall(rb"tag_(\d+)", r.get("stdout", b"")))
+
+
 # ----------------------------------------------------------------------------- the check
 
 def run(ctx):
@@ -508,6 +578,8 @@ def run(ctx):
     ccases.append((("rel", True, True, [([6], "h")]), ("dt", "LCompact", 2022, 1, 1, 12, 0, 0, None, None), "-03:30", True, "help-example"))
     ccases.append((("epoch", [9, 4, 6, 6, 8, 4, 8, 0, 0]), None, "+05:30", True, "help-example"))
     ccases.append((("rel", False, True, [([1], "w"), ([2, 2], "h")]), ("rel", False, False, [([3, 0], "s")]), "+00:00", True, "help-example"))
+    for fa, fb, kind in gen_at_fraction(rng, 1 if quick else 6):
+        ccases.append((fa, fb, rng.choice(TZ_C), True, kind))
     n_pairs = 150 if quick else 3000
     for _ in range(n_pairs):       # pairs: order, both '@', after > before, '@' chains
         tzs = rng.choice(TZ_C)
@@ -659,6 +731,43 @@ def run(ctx):
                                          kind="sub-second effect on a probe log with stamps at bound-1us, bound, bound+1us", bound_ns=ns_s),
                                     "lines printed: " + want, "rc=%s lines printed: %s" % (rc, tags))
 
+    # ------------------------------------------------------------------ '@' bound relative to a bound with a fraction: effect on a probe log
+    pidx = [i for i, c in enumerate(ccases) if c[4] in ("at-frac-a", "at-frac-b")]
+    at_checked = 0
+    at_fail = 0
+    if pidx:
+        rows_m = ["(%s, %s, \"%s\", %s)" % (hexs(cargs[i][0]), hexs(cargs[i][1]), cargs[i][2].encode().hex(), zc(now_of(cres[i]))) for i in pidx]
+        rows_s = ["(%s, %s, %s, %s)" % (coq_form(ccases[i][0]), coq_form(ccases[i][1]), zc(tz_secs(ccases[i][2])), zc(now_of(cres[i]))) for i in pidx]
+        mns = coq_shards(ctx, "model_ns_at", rows_m, "option string * option string * string * Z", "model_ns", "correspondence")
+        sns = coq_shards(ctx, "spec_ns_at", rows_s, "option form * option form * Z * Z", "spec_ns", "spec-evaluation")
+        if mns is not None and sns is not None:
+            def one_pair(k):
+                i = pidx[k]
+                a, b, tzs = cargs[i]
+                a_ns, b_ns = sns[k]
+                stamps = pair_stamps(a_ns, b_ns)
+                want = [j for j, t in enumerate(stamps) if a_ns <= t <= b_ns]
+                rc1, got1 = probe_pair(scratch, "%05d_r" % k, a, b, tzs, stamps)
+                # the equivalent absolute pair: the '@' side replaced by the instant the spec gives it
+                if ccases[i][4] == "at-frac-b":
+                    a2, b2 = a, abs_text(b_ns)
+                else:
+                    a2, b2 = abs_text(a_ns), b
+                rc2, got2 = probe_pair(scratch, "%05d_e" % k, a2, b2, tzs, stamps)
+                return i, a_ns, b_ns, want, rc1, got1, (a2, b2), rc2, got2
+            with ThreadPoolExecutor(max_workers=vlib.NCPU) as ex:
+                for k, (i, a_ns, b_ns, want, rc1, got1, eq, rc2, got2) in enumerate(ex.map(one_pair, range(len(pidx)))):
+                    at_checked += 1
+                    if tuple(mns[k]) != (a_ns, b_ns):
+                        ctx.obligation_broken("correspondence", "model nanoseconds of an '@' pair differ from spec nanoseconds",
+                                              json.dumps(dict(a=cargs[i][0], b=cargs[i][1], tz_offset=cargs[i][2], model_ns=list(mns[k]), spec_ns=[a_ns, b_ns])))
+                    if rc1 != 0 or got1 != want or rc2 != 0 or got2 != want:
+                        at_fail += 1
+                        ctx.failure(dict(a=cargs[i][0], b=cargs[i][1], tz_offset=cargs[i][2], kind=ccases[i][4] + ": effect on a probe log",
+                                         spec_a_ns=a_ns, spec_b_ns=b_ns, probe_stamps_ns=pair_stamps(a_ns, b_ns), equivalent_absolute_pair=list(eq)),
+                                    dict(rc=0, printed_line_indices=want),
+                                    dict(rc=rc1, printed_line_indices=got1, equivalent_pair_rc=rc2, equivalent_pair_printed=got2))
+
     # ------------------------------------------------------------------ evidence
     allstr = set()
     for (a, b, tzs) in bcases:
@@ -675,7 +784,7 @@ def run(ctx):
             key = f[0] + ("/" + f[1] if f[0] == "date" else "")
         fam[key] = fam.get(key, 0) + 1
     ctx.coverage.update(
-        evaluations=len(bcases) + sub_checked,
+        evaluations=len(bcases) + sub_checked + 2 * at_checked,
         distinct_nontrivial=len(set((a, b, tzs) for (a, b, tzs) in bcases if (a or b) and tzs != "+00:00")),
         rule="case = (-a text, -b text, --tz-offset text) run on the real binary; non-trivial = at least one bound given and a non-zero --tz-offset (so that zone handling matters); distinct by the triple",
         samples=[dict(a=bcases[i][0], b=bcases[i][1], tz_offset=bcases[i][2], outcome=list(bres[i]["outcome"])) for i in (0, len(absf), len(cargs) - 1, len(bcases) - 1)],
@@ -685,7 +794,8 @@ def run(ctx):
         tz_offsets=TZ_C + tz_b, model_cases=len(bcases), lenient_and_boundary_strings=len(LENIENT), mutations=len(bcases) - n_reuse - 2 * len(LENIENT),
         rejected_runs=rej, accepted_runs=len(bres) - rej,
         model_disagreements=model_dis, spec_failures=spec_fail, near_miss_failures=nm_fail,
-        subsecond_probe_runs=sub_checked, subsecond_failures=sub_fail)
+        subsecond_probe_runs=sub_checked, subsecond_failures=sub_fail,
+        at_fraction_pairs_probed=at_checked, at_fraction_probe_runs=2 * at_checked, at_fraction_failures=at_fail)
     ctx.assumptions += [
         "arguments are ASCII (is_alphabetic / is_whitespace / \\d of the Rust code are modelled for ASCII only); no NUL",
         "chrono 0.4.40 parse_from_str for the specifiers %Y %m %d %H %M %S %s %3f %6f %z %:z %#z %Z, to_naive_datetime_with_offset, to_datetime, TimeDelta::try_*, checked_add_signed are transcribed by hand (Model/CliDt.v) and tied only by run B; second=60 (leap second) and instants within a day of chrono's MIN/MAX are outside run B's generator",
@@ -711,7 +821,18 @@ def replay(ctx, path):
         print("replay -a %r -b %r --tz-offset=%r -> rc=%s outcome=%s now=%s ; expected %s" % (
             c.get("a"), c.get("b"), c.get("tz_offset"), res["rc"], list(res["outcome"]), res["now"], f["expected"]))
         exp = f["expected"]
-        if isinstance(exp, dict) and "spec_outcome" in exp:
+        if "probe_stamps_ns" in c:
+            rc, got = probe_pair(scratch, "replay", c.get("a"), c.get("b"), c.get("tz_offset"), c["probe_stamps_ns"])
+            print("   probe log (stamps %s): rc=%s printed line indices %s ; expected %s" % (c["probe_stamps_ns"], rc, got, exp))
+            if rc != exp["rc"] or got != exp["printed_line_indices"]:
+                bad += 1
+        elif "bound_ns" in c:
+            which = "a" if c.get("a") is not None else "b"
+            rc, tags = probe_effect(scratch, 0, which, c.get(which), c.get("tz_offset"), c["bound_ns"])
+            print("   probe log around %s: rc=%s %s ; expected %s" % (c["bound_ns"], rc, tags, exp))
+            if rc != 0 or ("lines printed: " + tags) != exp:
+                bad += 1
+        elif isinstance(exp, dict) and "spec_outcome" in exp:
             so = exp["spec_outcome"]
             rel = any(x and re.fullmatch(r"[+-](\d+[smhdw])+", x) for x in (c.get("a"), c.get("b")))
             if so[0] != res["outcome"][0] or (not rel and list(res["outcome"]) != so):
